@@ -510,6 +510,14 @@ func (x *exec) doHead(op *Op, find bool) *report.Failure {
 		return nil
 	}
 	x.tag("head:ok")
+	// C10: the head stays inside the finalized subtree (whenever the finalized node exists and the
+	// walk started inside it; leftovers of a failed sink and pins outside it are the exceptions)
+	if fa := (fcmodel.Ref{Root: x.m.Finalized.Root, Slot: x.m.Finalized.Epoch * x.m.SPE}); x.m.Has(fa) && x.m.Descends(fa, start) && !x.m.Descends(fa, want) {
+		return x.failf(name+"/outside-finalized-subtree", "head %s is not a descendant of the finalized node %s", x.rs(want), x.rs(fa))
+	}
+	if fa := (fcmodel.Ref{Root: x.m.Finalized.Root, Slot: x.m.Finalized.Epoch * x.m.SPE}); x.post && x.m.Has(fa) && x.m.Descends(fa, want) {
+		x.tag("head:inside-finalized-subtree-after-prune")
+	}
 	gap := !x.m.Nodes[want].IsBlock()
 	if hi.TieByRoot {
 		x.tag("head:tie-broken-by-root")
